@@ -397,7 +397,7 @@ class Fingerprint(object):
 
     @bits.setter
     def bits(self, bits):
-        self._bits = bits
+        self._bits = int(bits)
 
     @property
     def props(self):
